@@ -36,6 +36,9 @@ type c04Reader struct {
 	errVal    error // the injected error (a custom error, or io.ErrUnexpectedEOF as a truncated gzip stream gives)
 	transient bool  // the error is returned once; later reads would hand out the rest of the data
 	endPos    int   // bytes handed out when the stream ended (EOF or error)
+	stallPm   int   // per-mille chance of a (0,nil) read (0: one in six)
+	stallMax  int   // longest run of consecutive (0,nil) reads (0: 3)
+	aligned   bool  // every data-carrying read ends right after a '\n' when one is in reach
 }
 
 func (r *c04Reader) limit() int {
@@ -66,7 +69,14 @@ func (r *c04Reader) Read(p []byte) (int, error) {
 	}
 	lim := r.limit()
 	willErr := r.errAt >= 0 && r.errAt <= len(r.data)
-	if r.stalls && r.stallRun < 3 && r.t.F(6) == 5 {
+	stallMax, stallPm := 3, 167
+	if r.stallMax > 0 {
+		stallMax = r.stallMax
+	}
+	if r.stallPm > 0 {
+		stallPm = r.stallPm
+	}
+	if r.stalls && r.stallRun < stallMax && r.t.F(1000) < stallPm {
 		r.stallRun++
 		r.script = append(r.script, "0,nil")
 		return 0, nil
@@ -97,6 +107,21 @@ func (r *c04Reader) Read(p []byte) (int, error) {
 	case 3:
 		if max > 3 {
 			k = 1 + r.t.F(3)
+		}
+	}
+	if r.aligned {
+		// whole lines only: cut after the last '\n' within reach (1-3 lines)
+		want := 1 + r.t.F(3)
+		k = max
+		seen := 0
+		for i := 0; i < max; i++ {
+			if r.data[r.pos+i] == '\n' {
+				seen++
+				if seen == want {
+					k = i + 1
+					break
+				}
+			}
 		}
 	}
 	copy(p, r.data[r.pos:r.pos+k])
@@ -171,6 +196,26 @@ func c04One(rc *RunCtx) (c04Case, uint64, bool) {
 	data := c04GenData(t)
 	rd := &c04Reader{t: t, data: data, errAt: -1, errVal: errC04Injected}
 	rd.stalls = t.FBool(1, 3)
+	long := t.WBool(1, 24)
+	if long {
+		// a long stream of short lines under a reader that stalls often (in total, or in long runs) and may hand
+		// out whole lines only: a scanner that counts or limits empty reads shows here
+		n := t.WRange(100, 400)
+		var b bytes.Buffer
+		for i := 0; i < n; i++ {
+			for k := t.W(6); k > 0; k-- {
+				b.WriteByte("abc\r"[t.W(4)])
+			}
+			b.WriteByte('\n')
+		}
+		data = b.Bytes()
+		rd.data = data
+		rd.stalls = true
+		rd.stallPm = []int{300, 500, 800}[t.F(3)]
+		rd.stallMax = []int{1, 3, 150}[t.F(3)]
+		rd.aligned = t.FBool(2, 3)
+		rc.Probes["long-stall-stream"]++
+	}
 	rd.eofData = t.FBool(1, 3)
 	if rc.Faults && t.FBool(4, 5) {
 		rd.errAt = t.F(len(data) + 1)
@@ -190,6 +235,9 @@ func c04One(rc *RunCtx) (c04Case, uint64, bool) {
 			cs.BufSize = 128 * 1024
 		case 1, 2, 3:
 			cs.BufSize = 1 + t.W(4)
+		}
+		if long && t.WBool(2, 3) {
+			cs.BufSize = []int{4096, 128 * 1024}[t.W(2)]
 		}
 		sc = readahead.NewImmediate(rd, cs.BufSize)
 	} else {
